@@ -385,6 +385,11 @@ fn do_alloc(mid: usize, req: AllocReq) -> Option<(u64, usize)> {
         Some(o) => mm::alloc_with_options(m, size, align, offset, semantics, o),
     };
     crate::probes::after_alloc(mid, &req.opts, addr, size, pauses_before, oom_before, blocks_before);
+    {
+        // C38: the heap size reported to the binding, sampled after every allocation
+        let total = mm::total_bytes(mmtk());
+        with_world(|w| crate::probes::check_heap_size(w, total, "after an allocation"));
+    }
     if addr.is_zero() {
         with_world(|w| w.count("alloc_returned_null"));
         return None;
